@@ -1,5 +1,6 @@
 #!/bin/bash
 # usage: tools/coverage.sh [tier] [ids...]   (default: quick, all checks but C19)
+# The checks run with their reduced (sanitizer-pass) workloads by default: instrumented binaries are 10-50x slower.
 # Builds the harness with source-based coverage instrumentation (nightly, separate target dir under
 # work/), runs the given checks and prints, per source file of /repo/src, the functions of the library
 # that no check executed. Output also in work/coverage/report.txt. Informational: not part of any verdict.
@@ -13,7 +14,7 @@ export CARGO_NET_OFFLINE=true JSV_VERIF_DIR="$OUT/verif" JSV_REPO_DIR=/repo
 mkdir -p "$OUT/verif/evidence" "$OUT/verif/replays"; cp "$VERIF/known-findings.txt" "$OUT/verif/" 2>/dev/null
 ( cd "$VERIF/harness" && LLVM_PROFILE_FILE="$OUT/build-%p-%m.profraw" CARGO_TARGET_DIR="$T" RUSTFLAGS="-Cinstrument-coverage --cfg json_syntax_verif" cargo +nightly build --release --offline ) > "$OUT/build.log" 2>&1 || { echo "coverage build failed (see $OUT/build.log)"; exit 2; }
 for id in $IDS; do
-  LLVM_PROFILE_FILE="$OUT/$id-%p-%m.profraw" "$T/release/jsv" "$id" --tier "$TIER" > "$OUT/$id.log" 2>&1
+  LLVM_PROFILE_FILE="$OUT/$id-%p-%m.profraw" "$T/release/jsv" "$id" --tier "$TIER" ${JSV_COV_ARGS:---san --san-div 20} > "$OUT/$id.log" 2>&1
   echo "$id exit=$? $(grep -o 'wall=[0-9.]*s' "$OUT/$id.log" | head -1)"
 done
 "$BIN/llvm-profdata" merge -sparse "$OUT"/C*.profraw -o "$OUT/all.profdata" || exit 2
